@@ -109,6 +109,18 @@ def suspicious_forms(src):
         b = body(tc, name)
         if b and (len(re.findall(r"wait_timeout\(", b)) != 1 or re.search(r"wait_timeout\([^;]*\.(min|max)\(", b) or re.search(r"\.wait\(", b)):
             sus.append(f"{name}: the park is not the single `wait_timeout(guard, deadline - now)`")
+    # (n) the stored cancel reason is written by `cancel` alone (the constructor initialises it): any other
+    # method of TransferControl, public or private, that assigns / takes / replaces it is a second way to cancel
+    for mfn in re.finditer(r"\bfn\s+(\w+)", tc):
+        name = mfn.group(1)
+        if name in ("cancel", "with_replay_capacity"):
+            continue
+        try:
+            fb = _norm(fn_body(tc, name, mfn.start()))
+        except Exception:
+            continue
+        if re.search(r"\.cancelled = |\.cancelled\.(take|replace|insert|get_or_insert\w*)\(|cancelled: (Some|None)", fb):
+            sus.append(f"TransferControl::{name} writes the stored cancel reason (only `cancel` does today)")
     # shapes found in the second audit pass (classes g–m)
     if re.search(r"\btry_lock\s*\(", tc):
         sus.append("TransferControl: a method uses try_lock (an observer that gives up under contention reports a stale state)")
